@@ -71,6 +71,28 @@ def configurations(tier):
                             if dec == 'MemoryBeliefPropagationDecoder':
                                 cfg['dec_kwargs'] = {'max_bp_iter': 10}
                             out.append(cfg)
+    # the ends of the rate axis: p = 0, p = 1 and a rate above 1/2 (negative
+    # matching weights), pure and mixed channels, one small lattice per pair
+    for dec in DECODERS:
+        any_code = DECODERS[dec].allowed_codes is None
+        names = D.allowed_code_names(dec)
+        if any_code:
+            names = ['Toric2DCode', 'Planar3DCode', 'Color666PlanarCode', 'XCubeCode']
+        for cname in names:
+            ss = [s_ for s_ in sizes_for(cname, 'quick')
+                  if codes.qubit_count(cname, s_) <= (30 if dec == 'MemoryBeliefPropagationDecoder' else 60)]
+            if not ss:
+                continue
+            non_cubic = [s_ for s_ in ss if len(set(s_)) > 1]
+            size = (non_cubic or ss)[0]
+            for nz in (('depol', 'Z', 'X', 'Y') if tier != 'quick' else ('depol', 'Z', 'Y')):
+                for p in (0.0, 0.7, 1.0):
+                    cfg = {'decoder': dec, 'code': cname, 'size': list(size), 'noise': nz, 'p': p}
+                    if dec == 'BeliefPropagationOSDDecoder':
+                        cfg['dec_kwargs'] = {'max_bp_iter': 10, 'osd_order': 0}
+                    if dec == 'MemoryBeliefPropagationDecoder':
+                        cfg['dec_kwargs'] = {'max_bp_iter': 5}
+                    out.append(cfg)
     # larger lattices, many random errors: cluster growth / merging in the
     # union-find decoder only gets deep on lattices of side >= 7
     for size in ([(7, 7), (8, 8)] if tier == 'quick' else [(7, 7), (8, 8), (6, 9), (9, 9), (10, 8)]):
